@@ -17,7 +17,7 @@ PROPS = {
         "replay": [],
         "title": "Objects are insertion-ordered multimaps whose key index never goes stale",
         "level": "proof",
-        "level_text": "Unbounded proof, function by function, that the per-key position buckets (Indexes) keep their representation invariant and denote exactly the documented set after insert/remove/shift_up/shift_down; every bucket size and every position value.",
+        "level_text": "Unbounded proof, function by function: the per-key position buckets (Indexes) keep their representation invariant and denote exactly the documented set after insert/remove/shift_up/shift_down (every bucket size and position value); every Object operation (push*, insert*, remove*, remove_at, sort, from_vec, extend / collect, the three removal iterators incl. drop half-way) is the corresponding operation on a plain ordered list, with its documented result, and re-establishes `the index agrees with the list`; every key query answers as a linear scan would.",
         "level_note": "assumed: [T]::binary_search (documented contract), <&mut Vec as IntoIterator>::into_iter == iter_mut, usize Ord is <, vstd's Vec/Seq specs; hashbrown RawTable level not yet under contract",
         "design_ref": "DESIGN.md §6.2",
     },
